@@ -56,11 +56,14 @@ Ltac ucases2 k m :=
 Theorem leff_LInv2 : forall n y y', leff n y y' -> LInv n y -> LInv2 y -> LInv2 y'.
 Proof.
   intros n y y' H I J. destruct J as [M1 M1g M2 M2g].
-  destruct H as [m s' sent' cast' el' x s He Hl Ht Hr1 Hr2 Hs Hel
-                |m s' x s He Hc Hl Ht Hlog
-                |m s' sent' ext x s He Hr Hr' Ht Hlog Hext Hwf Hs
-                |m s' o x s He Hr Hr' Ht Hlog Ho
-                |m s' o f ldr pli plt es lc cmt x s He Hin Hr Hr' Ht Hm Ha Ho];
+  destruct H as [m s' sent' cast' el' x s He Hl Ht Hr1 Hr2 Hs Hel Hcm Hs2 Hcand Hmi
+                |m s' x s He Hc Hl Ht Hlog Hcm Hvs Hz
+                |m s' sent' ext x s He Hr Hr' Ht Hlog Hext Hwf Hs Hcm Hmx Hse
+                |m s' o x s He Hr Hr' Ht Hlog Ho Hc1 Hmx Hrule Hlc
+                |m s' o f ldr pli plt es lc cmt x s He Hin Hr Hr' Ht Hm Ha Ho Hcmt Hcm Hoo
+                |m s' from lli llt x s He Hlog Ht Hr Hvs Hcm Hmx Hin Hpg
+                |m s' u x s He Hlog Ht Hr Hr' Hcm Hvs Hin
+                |m s' x s He Hlog Ht Hr Hr' Hcm Hvs];
     constructor; cbn [y_x y_gl x_st]; auto.
   - (* LSame *) intro a. ucases2 a m; auto. rewrite Hl. eapply bounded_mono; [exact Ht|apply M1].
   - intro a. ucases2 a m; auto. rewrite Hl. apply M2.
@@ -111,6 +114,12 @@ Proof.
       destruct (append_entries_shape (y_gl y) es (log s) cmt p G (log s')) as [E|E]; eauto. }
     intro a. ucases2 a m; auto. destruct Sh as [E|(K & E)]; rewrite E; [apply M2|].
     apply sorted_firstn. apply M2g.
+  - (* LGrant *) intro a. ucases2 a m; auto. rewrite Hlog, Ht. apply M1.
+  - intro a. ucases2 a m; auto. rewrite Hlog. apply M2.
+  - (* LVote *) intro a. ucases2 a m; auto. rewrite Hlog, Ht. apply M1.
+  - intro a. ucases2 a m; auto. rewrite Hlog. apply M2.
+  - (* LCand *) intro a. ucases2 a m; auto. rewrite Hlog. eapply bounded_mono; [|apply M1]. rewrite Ht. fold x. fold s. lia.
+  - intro a. ucases2 a m; auto. rewrite Hlog. apply M2.
 Qed.
 
 Lemma leffs_LInv2 : forall n y y', leffs n y y' -> LInv n y -> LInv2 y -> LInv n y' /\ LInv2 y'.
